@@ -45,10 +45,6 @@ theorem stoOf_stoSet (ss : Stores) (a : Nat) (x : AcctSto) (b : Nat) :
         simp only [List.filter_cons, h3, Bool.not_false, if_true, List.find?_cons]
         cases (e.1 == b) <;> simp [ih]
 
-/-- the world with the storage and the transient storage of the account `a` erased -/
-def zeroAcct (w : Evm.World) (a : Nat) : Evm.World :=
-  { w with storage := w.storage.filter (fun e => e.1.1 != a), transient := w.transient.filter (fun e => e.1.1 != a) }
-
 theorem lookupD_filter_acct (m : List ((Nat × Nat) × Nat)) (a b slot : Nat) :
     Evm.lookupD (m.filter (fun e => e.1.1 != a)) (b, slot) = if b = a then 0 else Evm.lookupD m (b, slot) := by
   unfold Evm.lookupD
@@ -73,12 +69,55 @@ theorem lookupD_filter_acct (m : List ((Nat × Nat) × Nat)) (a b slot : Nat) :
         have hb : ¬ b = a := by intro e'; apply h; rw [this]; exact e'
         simp [hb]
 
+/-- erasing the entries whose key satisfies `P` -/
+theorem lookupD_filter_not (P : Nat × Nat → Bool) (m : List ((Nat × Nat) × Nat)) (k : Nat × Nat) :
+    Evm.lookupD (m.filter (fun e => !P e.1)) k = if P k = true then 0 else Evm.lookupD m k := by
+  unfold Evm.lookupD
+  induction m with
+  | nil => simp
+  | cons e m ih =>
+    cases hp : P e.1
+    · simp only [List.filter_cons, hp, Bool.not_false, if_true, List.find?_cons]
+      cases hk : (e.1 == k)
+      · simp only [ih]
+      · have : e.1 = k := by simpa using hk
+        rw [← this, hp]; simp
+    · simp only [List.filter_cons, hp, Bool.not_true, Bool.false_eq_true, if_false]
+      rw [ih]
+      cases hq : P k
+      · have : (e.1 == k) = false := by
+          rw [beq_eq_false_iff_ne]; intro e'; rw [e', hq] at hp; cases hp
+        simp [List.find?_cons, this]
+      · simp
+
+/-- the keys `zeroAcct` erases -/
+def lowKey (a : Nat) (k : Nat × Nat) : Bool := k.1 == a && decide (k.2 < 2 ^ 64)
+
+theorem lowKey_iff (a : Nat) (k : Nat × Nat) : lowKey a k = true ↔ k.1 = a ∧ k.2 < 2 ^ 64 := by
+  unfold lowKey
+  rw [Bool.and_eq_true, beq_iff_eq, decide_eq_true_iff]
+
+theorem lookupD_filter_low (m : List ((Nat × Nat) × Nat)) (a b slot : Nat) :
+    Evm.lookupD (m.filter (fun e => !lowKey a e.1)) (b, slot) =
+      if b = a ∧ slot < 2 ^ 64 then 0 else Evm.lookupD m (b, slot) := by
+  rw [lookupD_filter_not (lowKey a)]
+  by_cases h : b = a ∧ slot < 2 ^ 64
+  · rw [if_pos ((lowKey_iff a (b, slot)).2 h), if_pos h]
+  · rw [if_neg (fun h' => h ((lowKey_iff a (b, slot)).1 h')), if_neg h]
+
+/-- the world with the plain slots (below 2^64) and the transient storage of the account `a` erased; the account's
+    cells at hashed locations stay -/
+def zeroAcct (w : Evm.World) (a : Nat) : Evm.World :=
+  { w with storage := w.storage.filter (fun e => !lowKey a e.1),
+           transient := w.transient.filter (fun e => e.1.1 != a) }
+
 /-- the storage maps `v` of the modelled accounts (`S`) against the concrete world `w`, for a run started in the world
-    `w0`: every slot of a modelled account holds the value of the term last stored (zero if never written), every
-    bound term is a well-formed 256-bit term, and nothing else of the world differs from `w0` -/
+    `w0`: every plain slot (below 2^64) of a modelled account holds the value of the term last stored (zero if never
+    written) — the cells at hashed locations are the business of `HRel` —, every bound term is a well-formed 256-bit
+    term bound to a plain slot, and nothing else of the world differs from `w0` -/
 structure WRelM (I : Interp) (S : Nat → Prop) (w0 w : Evm.World) (v : Nat → AcctSto)
     (lg : List (Nat × List Nat × List Nat)) (bs : Nat → Nat) : Prop where
-  hsto : ∀ a, S a → ∀ slot, Evm.lookupD w.storage (a, slot) = (stoGet (v a).storage slot).eval I
+  hsto : ∀ a, S a → ∀ slot, slot < 2 ^ 64 → Evm.lookupD w.storage (a, slot) = (stoGet (v a).storage slot).eval I
   htr : ∀ a, S a → ∀ slot, Evm.lookupD w.transient (a, slot) = (stoGet (v a).transient slot).eval I
   wf : ∀ a, S a → ∀ kv, kv ∈ (v a).storage ∨ kv ∈ (v a).transient → kv.2.WF ∧ kv.2.width = 256
   other : ∀ a slot, ¬ S a → Evm.lookupD w.storage (a, slot) = Evm.lookupD w0.storage (a, slot) ∧
@@ -87,6 +126,7 @@ structure WRelM (I : Interp) (S : Nat → Prop) (w0 w : Evm.World) (v : Nat → 
   created : w.created = w0.created
   logs : w.logs = w0.logs ++ lg
   bal : ∀ a, w.balanceOf a = bs a
+  keys : ∀ a, S a → ∀ kv ∈ (v a).storage, kv.1 < 2 ^ 64
 
 /-- an event of the model under `I`: emitting account, topics, data bytes -/
 def evalLog (I : Interp) (l : LogT) : Nat × List Nat × List Nat :=
@@ -156,43 +196,84 @@ variable {bs : Nat → Nat}
 /-- the allocator counter is not part of what the maps describe -/
 theorem WRelM.setCreated (h : WRelM I S w0 w v lg bs) (c : Nat) :
     WRelM I S { w0 with created := c } { w with created := c } v lg bs :=
-  ⟨h.hsto, h.htr, h.wf, h.other, h.code, rfl, h.logs, h.bal⟩
+  ⟨h.hsto, h.htr, h.wf, h.other, h.code, rfl, h.logs, h.bal, h.keys⟩
 
 /-- every modelled account starts with zero storage: the empty maps describe the start world -/
 theorem WRelM.init (hz : ∀ a, S a → ∀ slot, Evm.lookupD w0.storage (a, slot) = 0 ∧
     Evm.lookupD w0.transient (a, slot) = 0) : WRelM I S w0 w0 (fun _ => {}) [] (balSem I w0 []) :=
-  ⟨fun a ha slot => (hz a ha slot).1, fun a ha slot => (hz a ha slot).2,
+  ⟨fun a ha slot _ => (hz a ha slot).1, fun a ha slot => (hz a ha slot).2,
    fun a _ kv h => by rcases h with h | h <;> exact absurd h List.not_mem_nil, fun _ _ _ => ⟨rfl, rfl⟩,
-   fun _ => rfl, rfl, (List.append_nil _).symm, fun _ => rfl⟩
+   fun _ => rfl, rfl, (List.append_nil _).symm, fun _ => rfl, fun _ _ kv h => absurd h List.not_mem_nil⟩
 
 theorem WRelM.congr (h : WRelM I S w0 w v lg bs) {v' : Nat → AcctSto} (hv : ∀ a, S a → v' a = v a) :
     WRelM I S w0 w v' lg bs :=
-  ⟨fun a ha slot => by rw [hv a ha]; exact h.hsto a ha slot, fun a ha slot => by rw [hv a ha]; exact h.htr a ha slot,
-   fun a ha kv hk => by rw [hv a ha] at hk; exact h.wf a ha kv hk, h.other, h.code, h.created, h.logs, h.bal⟩
+  ⟨fun a ha slot hlt => by rw [hv a ha]; exact h.hsto a ha slot hlt,
+   fun a ha slot => by rw [hv a ha]; exact h.htr a ha slot,
+   fun a ha kv hk => by rw [hv a ha] at hk; exact h.wf a ha kv hk, h.other, h.code, h.created, h.logs, h.bal,
+   fun a ha kv hk => by rw [hv a ha] at hk; exact h.keys a ha kv hk⟩
 
-/-- the one-account view of a modelled account, relative to the world with that account erased -/
+/-- the one-account view of a modelled account, relative to the world with that account's plain slots erased -/
 theorem WRelM.toWRel (h : WRelM I S w0 w v lg bs) {a : Nat} (ha : S a) :
     WRel I (zeroAcct w a) w a (v a).storage (v a).transient := by
-  refine ⟨fun slot => ?_, h.hsto a ha, h.htr a ha, h.wf a ha, fun b slot hb => ?_, ⟨rfl, rfl, rfl, rfl, rfl⟩⟩
+  refine ⟨fun slot => ⟨fun hlt => ?_, ?_⟩, fun slot => ?_, h.htr a ha, h.wf a ha, h.keys a ha, fun b slot hb => ?_,
+    ⟨rfl, rfl, rfl, rfl, rfl⟩⟩
+  · simp [zeroAcct, lookupD_filter_low, hlt]
   · simp [zeroAcct, lookupD_filter_acct]
-  · simp [zeroAcct, lookupD_filter_acct, hb]
+  · show _ = if _ then _ else Evm.lookupD (w.storage.filter _) (a, slot)
+    rw [lookupD_filter_low]
+    cases hf : (v a).storage.find? (fun kv => kv.1 == slot) with
+    | some kv =>
+      have hlt : slot < 2 ^ 64 := by
+        have hm := List.mem_of_find?_eq_some hf
+        have hk := List.find?_some hf
+        have : kv.1 = slot := by simpa using hk
+        rw [← this]; exact h.keys a ha kv hm
+      rw [if_pos (by simp)]
+      exact h.hsto a ha slot hlt
+    | none =>
+      rw [if_neg (by simp)]
+      by_cases hlt : slot < 2 ^ 64
+      · rw [if_pos ⟨rfl, hlt⟩, h.hsto a ha slot hlt]
+        unfold stoGet; rw [hf]; rfl
+      · rw [if_neg (fun h' => hlt h'.2)]
+  · have : ¬ (b = a ∧ slot < 2 ^ 64) := fun h' => hb h'.1
+    simp [zeroAcct, lookupD_filter_low, lookupD_filter_acct, hb, this]
+
+/-- what a run of the frame of the account `a` leaves of the rest of the world: the other accounts and the slots of
+    `a` from 2^64 on -/
+theorem WRel.frame {w w' : Evm.World} {a : Nat} {sto tr : List (Nat × T)} (h' : WRel I (zeroAcct w a) w' a sto tr) :
+    (∀ b slot, b ≠ a → Evm.lookupD w'.storage (b, slot) = Evm.lookupD w.storage (b, slot) ∧
+      Evm.lookupD w'.transient (b, slot) = Evm.lookupD w.transient (b, slot)) ∧
+    (∀ slot, 2 ^ 64 ≤ slot → Evm.lookupD w'.storage (a, slot) = Evm.lookupD w.storage (a, slot)) := by
+  refine ⟨fun b slot hb => ?_, fun slot hge => ?_⟩
+  · have := h'.other b slot hb
+    have hn : ¬ (b = a ∧ slot < 2 ^ 64) := fun h => hb h.1
+    simpa [zeroAcct, lookupD_filter_low, lookupD_filter_acct, hb, hn] using this
+  · rw [h'.hsto slot]
+    cases hf : sto.find? (fun kv => kv.1 == slot) with
+    | some kv =>
+      have hm := List.mem_of_find?_eq_some hf
+      have hk := List.find?_some hf
+      have : kv.1 = slot := by simpa using hk
+      have := h'.keys kv hm
+      omega
+    | none =>
+      simp only [Option.isSome_none, Bool.false_eq_true, if_false]
+      show Evm.lookupD (w.storage.filter _) (a, slot) = _
+      rw [lookupD_filter_low, if_neg (fun h => by omega)]
 
 /-- and back: whatever the running frame of the account `a` did to the world and to its two maps -/
 theorem WRelM.ofWRel (h : WRelM I S w0 w v lg bs) {a : Nat} (ha : S a) {w' : Evm.World} {sto tr : List (Nat × T)}
     (h' : WRel I (zeroAcct w a) w' a sto tr) :
     WRelM I S w0 w' (fun b => if b = a then { storage := sto, transient := tr } else v b) lg bs := by
-  have hoth : ∀ b slot, b ≠ a → Evm.lookupD w'.storage (b, slot) = Evm.lookupD w.storage (b, slot) ∧
-      Evm.lookupD w'.transient (b, slot) = Evm.lookupD w.transient (b, slot) := by
-    intro b slot hb
-    have := h'.other b slot hb
-    simpa [zeroAcct, lookupD_filter_acct, hb] using this
+  obtain ⟨hoth, _⟩ := h'.frame
   obtain ⟨r1, r2, r3, r4, r5⟩ := h'.rest
-  refine ⟨fun b hb slot => ?_, fun b hb slot => ?_, fun b hb kv hk => ?_, fun b slot hb => ?_,
+  refine ⟨fun b hb slot hlt => ?_, fun b hb slot => ?_, fun b hb kv hk => ?_, fun b slot hb => ?_,
     fun x => (show w'.codeOf x = w.codeOf x by unfold Evm.World.codeOf; rw [r1]; rfl).trans (h.code x),
-    r4.trans h.created, r5.trans h.logs, fun b => ?_⟩
+    r4.trans h.created, r5.trans h.logs, fun b => ?_, fun b hb kv hk => ?_⟩
   · by_cases e : b = a
-    · subst e; simp only [if_true]; exact h'.hsto slot
-    · simp only [if_neg e]; rw [(hoth b slot e).1]; exact h.hsto b hb slot
+    · subst e; simp only [if_true]; exact h'.hsto_lt hlt
+    · simp only [if_neg e]; rw [(hoth b slot e).1]; exact h.hsto b hb slot hlt
   · by_cases e : b = a
     · subst e; simp only [if_true]; exact h'.htr slot
     · simp only [if_neg e]; rw [(hoth b slot e).2]; exact h.htr b hb slot
@@ -204,8 +285,48 @@ theorem WRelM.ofWRel (h : WRelM I S w0 w v lg bs) {a : Nat} (ha : S a) {w' : Evm
   · rw [← h.bal b]
     unfold Evm.World.balanceOf
     rw [r2, r3]; rfl
+  · by_cases e : b = a
+    · subst e; simp only [if_true] at hk; exact h'.keys kv hk
+    · simp only [if_neg e] at hk; exact h.keys b hb kv hk
 
 end
+
+/-! ### the cells at hashed locations -/
+
+/-- the concrete location of a cell (Solidity layout): `m[key]` for the mapping at the slot `base` (kind 2) is
+    Keccak-256 of key ‖ base; `a[i]` for the dynamic array at `base` (kind 1; the key term denotes `0 + i`) is
+    Keccak-256 of base, plus `i` -/
+def hLoc (p : Evm.Params) (kind key base : Nat) : Nat :=
+  if kind = 2 then p.keccak (Evm.natToBytes 32 key ++ Evm.natToBytes 32 base) % Evm.W
+  else (p.keccak (Evm.natToBytes 32 base) + key) % Evm.W
+
+/-- the flat storage a chain of writes (newest first) describes over empty storage -/
+def hFlat (I : Interp) (p : Evm.Params) : List HCell → Nat → Nat → Nat
+  | [], _, _ => 0
+  | c :: rest, a, slot =>
+    if c.acct = a ∧ hLoc p c.kind (c.key.eval I) c.base = slot then c.val.eval I else hFlat I p rest a slot
+
+/-- the slots from 2^64 on of the modelled accounts hold what the chain of writes to hashed locations says -/
+def HRel (I : Interp) (p : Evm.Params) (S : Nat → Prop) (w : Evm.World) (chain : List HCell) : Prop :=
+  ∀ a, S a → ∀ slot, 2 ^ 64 ≤ slot → Evm.lookupD w.storage (a, slot) = hFlat I p chain a slot
+
+/-- a run of the frame of the account `a` does not touch the slots from 2^64 on -/
+theorem HRel.ofWRel {I : Interp} {p : Evm.Params} {S : Nat → Prop} {w w' : Evm.World} {chain : List HCell}
+    (h : HRel I p S w chain) {a : Nat} {sto tr : List (Nat × T)} (h' : WRel I (zeroAcct w a) w' a sto tr) :
+    HRel I p S w' chain := by
+  obtain ⟨f1, f2⟩ := h'.frame
+  intro b hb slot hge
+  by_cases e : b = a
+  · subst e; rw [f2 slot hge]; exact h b hb slot hge
+  · rw [(f1 b slot e).1]; exact h b hb slot hge
+
+theorem HRel.mono_world {I : Interp} {p : Evm.Params} {S : Nat → Prop} {w w' : Evm.World} {chain : List HCell}
+    (h : HRel I p S w chain) (hs : w'.storage = w.storage) : HRel I p S w' chain :=
+  fun a ha slot hge => by rw [hs]; exact h a ha slot hge
+
+theorem HRel.congr {I : Interp} {p : Evm.Params} {S : Nat → Prop} {w w' : Evm.World} {chain : List HCell}
+    (h : HRel I p S w chain) (hs : ∀ a slot, Evm.lookupD w'.storage (a, slot) = Evm.lookupD w.storage (a, slot)) :
+    HRel I p S w' chain := fun a ha slot hge => (hs a slot).trans (h a ha slot hge)
 
 /-! ### the relation -/
 
@@ -231,6 +352,7 @@ structure ContRel (k : Cont) (kc : CCont) : Prop where
   cr : kc.cr = k.create         -- a message call, or the constructor of the same new account
   crS : ∀ a, k.create = some a → S a ∧ a < 2 ^ 160
   hcr : CrOK S k.snapCreated
+  hH : HRel I p S kc.w k.snapHsto
 
 /-- a frame-stack state against the running concrete frame, the world and the suspended concrete callers -/
 structure RelC (cs : CState) (w : Evm.World) (f : Evm.Frame) (kcs : List CCont) : Prop where
@@ -242,6 +364,7 @@ structure RelC (cs : CState) (w : Evm.World) (f : Evm.Frame) (kcs : List CCont) 
   hW : WRelM I S (wd w0 cs.created cs.nonce) w (viewOf cs) (evalLogs I cs.logs) (balSem I w0 cs.bal)
   hbal : ChainWF cs.bal
   hcr : CrOK S cs.created
+  hH : HRel I p S w cs.hsto
   conts : List.Forall₂ (ContRel I p S w0) cs.conts kcs
 
 end
@@ -314,7 +437,7 @@ theorem resume_rel {k : Cont} {kc : CCont} {ks : List Cont} {kcs : List CCont} (
     {hc : List HCell} (hres : haltWith h (e.data.map (·.eval I)) = r1.2)
     (hdwf : ∀ b ∈ e.data, b.WF ∧ b.width = 8)
     (hsub : SubstOk I e.st) (hW : WRelM I S (wd w0 cr n) r1.1 (stoOf full) (evalLogs I lg) (balSem I w0 bl))
-    (hbl : ChainWF bl) (hcr : CrOK S cr) :
+    (hbl : ChainWF bl) (hcr : CrOK S cr) (hHr : HRel I p S r1.1 hc) :
     RelC I p S w0 (resume full lg bl cr n hc k ks h e) (resumeWorld kc r1) (resumeFrame kc r1.2) kcs := by
   have hsucc : r1.2.isSuccess = haltOk h := by rw [← hres]; exact haltWith_isSuccess _ _
   have hdata : MemRel I (haltData h e.data) r1.2.data :=
@@ -328,7 +451,13 @@ theorem resume_rel {k : Cont} {kc : CCont} {ks : List Cont} {kcs : List CCont} (
                   pc := kc.f.pc + 1 } := by
     unfold resumeFrame; rw [hkc]
   rw [hrf]
-  refine ⟨⟨hR.code, ?_, ?_, ?_, ?_, ?_, ?_⟩, hk.this, hk.inS, hk.depth, hk.hcode, ?_, ?_, ?_, hks⟩
+  have hHres : HRel I p S (resumeWorld kc r1) (if haltOk h then hc else k.snapHsto) := by
+    unfold resumeWorld
+    rw [hsucc]
+    cases haltOk h
+    · exact hk.hH.mono_world rfl
+    · simp only [if_true, hkc]; exact hHr
+  refine ⟨⟨hR.code, ?_, ?_, ?_, ?_, ?_, ?_⟩, hk.this, hk.inS, hk.depth, hk.hcode, ?_, ?_, ?_, hHres, hks⟩
   · show kc.f.pc + 1 = k.st.pc + 1
     rw [hR.pc]
   · show StackRel I (_ :: k.st.stack) (_ :: kc.f.stack)
@@ -610,7 +739,7 @@ theorem wrelM_fullOf_keeps (hrel : RelC I p S w0 cs w f kcs) {e : EndState} (hk 
 theorem WRelM.setCode {cr : List (Nat × List Nat)} {n : Nat} {w' : Evm.World} {v : Nat → AcctSto}
     {lg : List (Nat × List Nat × List Nat)} {bs : Nat → Nat} (h : WRelM I S (wd w0 cr n) w' v lg bs) (a : Nat)
     (code : List Nat) : WRelM I S (wd w0 ((a, code) :: cr) n) (w'.setCode a code) v lg bs := by
-  refine ⟨h.hsto, h.htr, h.wf, h.other, fun x => ?_, h.created, h.logs, h.bal⟩
+  refine ⟨h.hsto, h.htr, h.wf, h.other, fun x => ?_, h.created, h.logs, h.bal, h.keys⟩
   rw [codeOf_setCode, wd_codeOf, h.code x, wd_codeOf]
   unfold codeOf
   by_cases e : x = a
@@ -625,7 +754,7 @@ theorem createEnd_rel {k : Cont} {kc : CCont} {ks : List Cont} {kcs' : List CCon
     (hres : haltWith h (e.data.map (·.eval I)) = r1.2) (hdwf : ∀ b ∈ e.data, b.WF ∧ b.width = 8)
     (hsub : SubstOk I e.st)
     (hW : WRelM I S (wd w0 cs.created cs.nonce) r1.1 (stoOf (fullOf cs e)) (evalLogs I cs.logs) (balSem I w0 cs.bal))
-    (hbl : ChainWF cs.bal) (hcr : CrOK S cs.created) :
+    (hbl : ChainWF cs.bal) (hcr : CrOK S cs.created) (hHr : HRel I p S r1.1 cs.hsto) :
     ∀ cs' ∈ (createEnd cs (fullOf cs e) k ks h e a).next,
       RelC I p S w0 cs' (resumeWorld kc r1) (resumeFrame kc r1.2) kcs' := by
   have hsucc : r1.2.isSuccess = haltOk h := by rw [← hres]; exact haltWith_isSuccess _ _
@@ -646,7 +775,14 @@ theorem createEnd_rel {k : Cont} {kc : CCont} {ks : List Cont} {kcs' : List CCon
     simp only [Bool.false_eq_true, if_false, List.mem_singleton] at hm
     subst hm
     rw [hrf, hsucc, hok]
-    refine ⟨⟨hR.code, ?_, ?_, ?_, ?_, ?_, ?_⟩, hk.this, hk.inS, hk.depth, hk.hcode, ?_, ?_, ?_, hks⟩
+    have hHres : HRel I p S (resumeWorld kc r1) k.snapHsto := by
+      unfold resumeWorld
+      rw [hsucc, hok]
+      exact hk.hH.mono_world rfl
+    refine ⟨⟨hR.code, ?_, ?_, ?_, ?_, ?_, ?_⟩, hk.this, hk.inS, hk.depth, hk.hcode, ?_, ?_, ?_, ?_, hks⟩
+    rotate_left 9
+    · show HRel I p S _ (if haltOk h then cs.hsto else k.snapHsto)
+      rw [hok]; exact hHres
     · show kc.f.pc + 1 = k.st.pc + 1
       rw [hR.pc]
     · show StackRel I (_ :: k.st.stack) (_ :: kc.f.stack)
@@ -692,7 +828,10 @@ theorem createEnd_rel {k : Cont} {kc : CCont} {ks : List Cont} {kcs' : List CCon
         unfold resumeWorld; rw [hsucc, hok, hkc, hd]; rfl
       rw [hrf, hsucc, hok, hrw]
       obtain ⟨haS, ha⟩ := hk.crS a hc
-      refine ⟨⟨hR.code, ?_, ?_, ?_, ?_, ?_, ?_⟩, hk.this, hk.inS, hk.depth, hk.hcode, ?_, ?_, ?_, hks⟩
+      have hHres : HRel I p S (r1.1.setCode a (code.map (· % 256)))
+          (if haltOk h then cs.hsto else k.snapHsto) := by
+        rw [hok]; exact hHr.mono_world rfl
+      refine ⟨⟨hR.code, ?_, ?_, ?_, ?_, ?_, ?_⟩, hk.this, hk.inS, hk.depth, hk.hcode, ?_, ?_, ?_, hHres, hks⟩
       · show kc.f.pc + 1 = k.st.pc + 1
         rw [hR.pc]
       · show StackRel I (_ :: k.st.stack) (_ :: kc.f.stack)
@@ -726,7 +865,7 @@ theorem frame_end (hrel : RelC I p S w0 cs w f kcs) {r1 : Evm.World × Evm.Halt}
     {h : Evm.Halt} {e : EndState} (hres : haltWith h (e.data.map (·.eval I)) = r1.2)
     (hdwf : ∀ b ∈ e.data, b.WF ∧ b.width = 8) (hk : Keeps e.st cs.st)
     (hW : WRelM I S (wd w0 cs.created cs.nonce) r1.1 (stoOf (fullOf cs e)) (evalLogs I cs.logs)
-      (balSem I w0 cs.bal)) :
+      (balSem I w0 cs.bal)) (hHr : HRel I p S r1.1 cs.hsto) :
     (cs.conts = [] → kcs = []) ∧
     (∀ k ks, cs.conts = k :: ks → ∃ kc kcs', kcs = kc :: kcs' ∧
       (∀ cs' ∈ (frameEndH cs k ks h e).next,
@@ -746,9 +885,9 @@ theorem frame_end (hrel : RelC I p S w0 cs w f kcs) {r1 : Evm.World × Evm.Halt}
           intro cs' hm
           simp only [List.mem_singleton] at hm
           subst hm
-          exact resume_rel hk1 hks hcr hres hdwf (hrel.hR.subst.same hk.2.1 hk.1) hW hrel.hbal hrel.hcr
+          exact resume_rel hk1 hks hcr hres hdwf (hrel.hR.subst.same hk.2.1 hk.1) hW hrel.hbal hrel.hcr hHr
         | some a =>
-          exact createEnd_rel hk1 hks hcr hres hdwf (hrel.hR.subst.same hk.2.1 hk.1) hW hrel.hbal hrel.hcr
+          exact createEnd_rel hk1 hks hcr hres hdwf (hrel.hR.subst.same hk.2.1 hk.1) hW hrel.hbal hrel.hcr hHr
       · simp only [RunStack]
         constructor
         · rintro ⟨r2, h2, h3⟩
@@ -789,7 +928,7 @@ def LocalComplete (r : Evm.World × Evm.Halt) (lo : LocalOut) : Prop :=
     ((∃ h r1, e.out = .halt h ∧ e.tag = .normal ∧ Halts p w f r1 ∧ haltWith h (e.data.map (·.eval I)) = r1.2 ∧
         (∀ b ∈ e.data, b.WF ∧ b.width = 8) ∧
         WRelM I S (wd w0 cs.created cs.nonce) r1.1 (stoOf (fullOf cs e)) (evalLogs I cs.logs)
-          (balSem I w0 cs.bal)) ∨
+          (balSem I w0 cs.bal) ∧ HRel I p S r1.1 cs.hsto) ∨
      (∃ r', e.out = .stuck r') ∨ e.tag ≠ .normal)) ∨
   lo.bounded ≠ []
 
@@ -806,7 +945,7 @@ theorem finish_sound (hrel : RelC I p S w0 cs w f kcs) (hsat : Sat I cs.st.path)
     (∀ ce ∈ (finish cs lo).ends, ce.e.tag = .normal → ∀ h, ce.e.out = .halt h →
         ∃ w', RunStack p w f kcs (w', haltWith h (ce.e.data.map (·.eval I))) ∧
           WRelM I S (wd w0 ce.created ce.nonce) w' (stoOf ce.stores) (evalLogs I ce.logs)
-            (balSem I w0 ce.bal)) := by
+            (balSem I w0 ce.bal) ∧ HRel I p S w' ce.hsto) := by
   refine ⟨fun cs' hm hsat' => ?_, fun ce hm ht h ho => ?_⟩
   · rcases mem_finish_next hm with hm | ⟨e, he, k, ks, h, hc, ho, ht, hm⟩
     · exact hl.1 cs' hm hsat'
@@ -814,7 +953,7 @@ theorem finish_sound (hrel : RelC I p S w0 cs w f kcs) (hsat : Sat I cs.st.path)
       obtain ⟨hstep, hdwf⟩ := hstep ht h ho
       obtain ⟨kc, kcs', hkc, hrel', hiff⟩ :=
         (frame_end hrel (r1 := (w, _)) ((halts_halt hstep).2 rfl) (h := h) rfl hdwf hk
-          (wrelM_fullOf_keeps hrel hk)).2 k ks hc
+          (wrelM_fullOf_keeps hrel hk) hrel.hH).2 k ks hc
       exact ⟨_, _, kcs', hrel' cs' hm, fun r hr => (hiff r).2 hr⟩
   · obtain ⟨e, he, hcase⟩ := mem_finish_ends hm
     rcases hcase with ⟨rfl, hcase⟩ | ⟨r', hr'⟩
@@ -824,7 +963,7 @@ theorem finish_sound (hrel : RelC I p S w0 cs w f kcs) (hsat : Sat I cs.st.path)
       · have hkcs : kcs = [] := by
           have := hrel.conts; rw [hc] at this; cases this; rfl
         subst hkcs
-        exact ⟨w, (halts_halt hstep).2 rfl, wrelM_fullOf_keeps hrel hk⟩
+        exact ⟨w, (halts_halt hstep).2 rfl, wrelM_fullOf_keeps hrel hk, hrel.hH⟩
       · exact absurd ⟨h, ho, ht⟩ hn
     · rw [hr'] at ho; cases ho
 
@@ -837,8 +976,8 @@ theorem finish_complete (hrel : RelC I p S w0 cs w f kcs) (hsat : Sat I cs.st.pa
   rcases hl with ⟨cs', hm, hsat', hx⟩ | ⟨e, he, hk, hcase⟩ | hb
   · exact Or.inl ⟨cs', finish_next_of_local hm, hsat', hx⟩
   · have hsate : Sat I e.st.path := by rw [hk.1]; exact hsat
-    rcases hcase with ⟨h, r1, ho, ht, hh, hres, hdwf, hW⟩ | hstuck | htag
-    · obtain ⟨hnil, hcons⟩ := frame_end hrel hh hres hdwf hk hW
+    rcases hcase with ⟨h, r1, ho, ht, hh, hres, hdwf, hW, hHr⟩ | hstuck | htag
+    · obtain ⟨hnil, hcons⟩ := frame_end hrel hh hres hdwf hk hW hHr
       cases hc : cs.conts with
       | nil =>
         have hkcs := hnil hc
@@ -903,7 +1042,7 @@ theorem RelC.step (hrel : RelC I p S w0 cs w f kcs) {st' : SState} {w' : Evm.Wor
     RelC I p S w0 { cs with st := st' } w' f' kcs := by
   rw [hrel.this] at hW'
   refine ⟨hR', (R.this_eq hrel.hR hR').trans hrel.this, hrel.inS, (creach_depth hreach).trans hrel.depth, hrel.hcode,
-    ?_, hrel.hbal, hrel.hcr, hrel.conts⟩
+    ?_, hrel.hbal, hrel.hcr, hrel.hH.ofWRel hW', hrel.conts⟩
   refine (hrel.hW.ofWRel hrel.inS hW').congr (fun a _ => ?_)
   by_cases e : a = cs.this
   · simp [viewOf, e]
@@ -960,9 +1099,8 @@ theorem local_step_complete (hs : SimpSound s) (ho : OracleSound o) (hI : I.Std)
       fun hC => ⟨hrel.bb_of (hrel.step hreach hR' hW') rfl (hbb hC).1, (hbb hC).2⟩⟩
   · refine Or.inr (Or.inl ⟨e, hme, stepL_end_keeps hme, ?_⟩)
     rcases hcov with ⟨h0, ho', hres, ht, hW, hdwf⟩ | hstuck | htag
-    · refine Or.inl ⟨h0, r1, ho', ht, hh, hres, hdwf, wrelM_fullOf ?_⟩
-      rw [hrel.this] at hW
-      exact hrel.hW.ofWRel hrel.inS hW
+    · rw [hrel.this] at hW
+      exact Or.inl ⟨h0, r1, ho', ht, hh, hres, hdwf, wrelM_fullOf (hrel.hW.ofWRel hrel.inS hW), hrel.hH.ofWRel hW⟩
     · exact Or.inr (Or.inl hstuck)
     · exact Or.inr (Or.inr htag)
   · exact Or.inr (Or.inr hb)
@@ -981,9 +1119,8 @@ theorem local_corr_complete (hs : SimpSound s) (ho : OracleSound o) (hrel : RelC
       fun hC => ⟨hrel.bb_of (hrel.step hreach hR' hW') rfl (hbb hC).1, (hbb hC).2⟩⟩
   · refine Or.inr (Or.inl ⟨e, hme, shape_end_keeps hsh hme, ?_⟩)
     rcases hcov with ⟨h0, ho', hres, ht, hW, hdwf⟩ | hstuck | htag
-    · refine Or.inl ⟨h0, r1, ho', ht, hh, hres, hdwf, wrelM_fullOf ?_⟩
-      rw [hrel.this] at hW
-      exact hrel.hW.ofWRel hrel.inS hW
+    · rw [hrel.this] at hW
+      exact Or.inl ⟨h0, r1, ho', ht, hh, hres, hdwf, wrelM_fullOf (hrel.hW.ofWRel hrel.inS hW), hrel.hH.ofWRel hW⟩
     · exact Or.inr (Or.inl hstuck)
     · exact Or.inr (Or.inr htag)
   · exact Or.inr (Or.inr hb)
